@@ -3,6 +3,7 @@
 package gen
 
 import (
+	"fmt"
 	"math/rand"
 	"sort"
 	"strings"
@@ -675,4 +676,61 @@ func BigLowNibble(r *rand.Rand, maxKeys int) KeySet {
 		}
 	}
 	return KeySet{uniqSorted(m), "biglownibble"}
+}
+
+// DistinctBitmaps: a caterpillar over 4-bit labels in which the inner nodes use nDistinct DIFFERENT label sets of
+// k labels each, every set `repeat` times: one label leads on along the spine, the others to leaves.  It is the
+// worst case for the builder's short-bitmap table (many distinct 17-bit bitmaps, each too rare to pay for a table
+// entry): whatever the cost model decides, the filter-mode size bound must hold.
+func DistinctBitmaps(r *rand.Rand, k, nDistinct, repeat int) KeySet {
+	if k < 2 {
+		k = 2
+	}
+	if k > 4 {
+		k = 4
+	}
+	// all k-subsets of the 16 nibble values, in a shuffled order
+	var sets [][]byte
+	var rec func(start int, cur []byte)
+	rec = func(start int, cur []byte) {
+		if len(cur) == k {
+			sets = append(sets, append([]byte{}, cur...))
+			return
+		}
+		for v := start; v < 16; v++ {
+			rec(v+1, append(cur, byte(v)))
+		}
+	}
+	rec(0, nil)
+	r.Shuffle(len(sets), func(i, j int) { sets[i], sets[j] = sets[j], sets[i] })
+	if nDistinct > len(sets) {
+		nDistinct = len(sets)
+	}
+	sets = sets[:nDistinct]
+	pack := func(ns []byte) string {
+		b := make([]byte, (len(ns)+1)/2)
+		for i, n := range ns {
+			if i&1 == 0 {
+				b[i>>1] |= n << 4
+			} else {
+				b[i>>1] |= n
+			}
+		}
+		return string(b)
+	}
+	m := map[string]struct{}{}
+	var path []byte
+	for rep := 0; rep < repeat; rep++ {
+		for _, s := range sets {
+			spine := r.Intn(k)
+			for i, l := range s {
+				if i != spine {
+					m[pack(append(append([]byte{}, path...), l))] = struct{}{}
+				}
+			}
+			path = append(path, s[spine])
+		}
+	}
+	m[pack(append(append([]byte{}, path...), 0xf, 0xf))] = struct{}{}
+	return KeySet{Keys: uniqSorted(m), Class: fmt.Sprintf("distinct-bitmaps-k%d", k)}
 }
